@@ -28,10 +28,17 @@ for d in sorted(glob.glob(os.path.join(HERE, "seeded", "*"))):
     meta = json.load(open(mp))
     res = json.load(open(rp)) if os.path.exists(rp) else {}
     caught = ", ".join(res.get("caught_by") or []) or "**none**"
+    if meta.get("superseded"):
+        caught = "n/a"
+    fp = os.path.join(d, "result_first.json")
+    first = "-"
+    if os.path.exists(fp):
+        first = ", ".join(json.load(open(fp)).get("caught_by") or []) or "none"
     status = meta.get("status", "kept")
-    rows += "| `%s` | %s | %s | %s | %s | %s |\n" % (os.path.basename(d), meta.get("property"), esc(meta.get("summary", "")), esc(meta.get("needs_to_manifest", "")),
-                                                  caught, esc(meta.get("note", status)))
-t3 = "| seed | property | change | needs, to manifest | caught by (quick tier) | note |\n|------|----------|--------|--------------------|------------------------|------|\n" + rows
+    rows += "| `%s` | %s | %s | %s | %s | %s | %s |\n" % (os.path.basename(d), meta.get("property"), esc(meta.get("summary", "")), esc(meta.get("needs_to_manifest", "")),
+                                                       first, caught, esc(meta.get("note", status)))
+t3 = ("| seed | property | change | needs, to manifest | caught at first measurement (round 3 only) | caught by (quick tier, final code) | note |\n"
+      "|------|----------|--------|--------------------|---------------------|------------------------|------|\n" + rows)
 s = re.sub(r"<!-- SEED-TABLE -->.*?<!-- /SEED-TABLE -->", lambda m: "<!-- SEED-TABLE -->\n" + t3 + "<!-- /SEED-TABLE -->", s, flags=re.S)
 rows = ""
 for d in sorted(glob.glob(os.path.join(HERE, "neutral", "*"))):
